@@ -13,7 +13,7 @@ R13 = 'semantic values are ghost identifiers (R13): std::variant/optional/tuple,
 # obligations that belong to particular properties only (not counted, pass or fail, for the others)
 OWNED = {r'stack/capacity:': ['C06', 'C12'], r'stack/capacity-shape:': ['C06', 'C12', 'C07']}
 
-L_KNUTH = "Knuth's LR(1) theorem (closed states + goto kernels + table read off the items + driver executing the table => accepts exactly L(G)) is not mechanised; analyze_states (the work-list loop) is NOT under contract; closure, transitions and the four FIRST/nullable functions are each under contract with their callees replaced by abstract contracts over ghost tables, i.e. each does the textbook step given what the others return - that the memoised recursion reaches the least fixed point is not claimed (finding D4)"
+L_KNUTH = "Knuth's LR(1) theorem (closed states + goto kernels + table read off the items + driver executing the table => accepts exactly L(G)) is not mechanised; analyze_states (the work-list loop), closure, transitions and the four FIRST/nullable functions are each under contract with their callees replaced by abstract contracts over ghost tables, i.e. each does the textbook step given what the others return - that the memoised recursion reaches the least fixed point is not claimed (finding D4)"
 GLUE = 'the pack-expansion glue that fills grammar_info from the DSL objects (analyze_terms/nterms/rule, create_lexer, init_reductors: R18) is outside the extraction'
 
 PROPS = {
